@@ -532,10 +532,10 @@ type c04RecvStr struct {
 	cancelBeforeFinal bool
 	finalByResetAt    bool
 	reliableAtFinal   c04bc
-	eofSeen    bool
-	errSeen    bool
-	shutdown   bool
-	creditAtSD c04bc
+	eofSeen           bool
+	errSeen           bool
+	shutdown          bool
+	creditAtSD        c04bc
 	// leak: the stream is in the one state in which the unchanged tree is known not to return the
 	// abandoned bytes (reported once per history under its own signature); the model then follows the
 	// code so that the rest of the history is still checked
